@@ -747,6 +747,9 @@ func (s *Service) ClientClose(client *ClientService) {
 				j++
 			}
 
+			// remove the external c2 listeners (and their endpoints) this client started
+			s.Teamserver.ListenerServiceExc2Remove(client)
+
 			// close client connection
 			if s.clients[i].Conn != nil {
 				err := s.clients[i].Conn.Close()
